@@ -133,12 +133,15 @@ impl Prop for C10 {
             let sc = Scripts { rs: &rs, ws: &ws, fs: &fs };
             let r = run_impl(&sc); let mr = parse_stream(&m.ask(&model_line(&sc))); o.validated += 1;
             o.impl_obs = format!("{} out={}B", r.res, r.out.len()); o.model_obs = format!("{} out={}B", mr.res, mr.out.len());
+            // the Lean definitions GENERATED from encrypt.rs / decrypt.rs (tools/rs2lean_stream.py), run on the same scripts: this ties the translator to the code
+            if hook { let line = model_line(&sc); let src_line = line.replacen("_chunks ", "_chunks_src ", 1); let sr = parse_stream(&m.ask(&src_line)); o.validated += 1; o.tags.push("translated chunk loop run".into());
+                if (sr.res != r.res || sr.out != r.out) && r.res != "crash" { o.disagreement = Some(format!("the Lean definitions translated from the chunk loop of {}crypt.rs give {} with {} bytes written, the real code {} with {} bytes", if op == "enc" { "en" } else { "de" }, sr.res, sr.out.len(), r.res, r.out.len())); } }
             o.nontrivial = Some(format!("multi/{}/{}", op, get(c, "seed"))); o.tags.push(format!("multi -> {}", r.res));
             // encryption: the chunking depends on the read sizes, so the reference output is the model's (same schedule, faults removed) — only class and the prefix of the *model* output are compared here
             if r.res == "crash" { o.oracle_fail = Some(("no-panic".into(), "panicked under an I/O fault script".into())); }
             else if op == "dec" && !want.starts_with(&r.out) { o.oracle_fail = Some(("prefix-of-fault-free-output".into(), format!("wrote {} bytes that are not a prefix of the fault-free output", r.out.len()))); }
             else if op == "dec" && r.res == "ok" && r.out != want { o.oracle_fail = Some(("success=>everything-written".into(), "ok with incomplete output".into())); }
-            else if r.res != mr.res { o.disagreement = Some(format!("result class: impl {} model {}", r.res, mr.res)); }
+            else if r.res != mr.res && o.disagreement.is_none() { o.disagreement = Some(format!("result class: impl {} model {}", r.res, mr.res)); }
             return o;
         }
         // ---- single fault at every position k ----
